@@ -17,7 +17,7 @@ import socket as _socket
 from . import fakenet, reqwire
 
 CONNECT_KINDS = {"refused", "ctimeout", "gaierror", "cbase", "tlsfail", "connect_refused"}
-SEND_KINDS = {"epipe", "sreset", "sother", "sbase"}
+SEND_KINDS = {"epipe", "sreset", "sother", "sbase", "epipe_reply"}
 RECV_KINDS = {"rtimeout", "rreset", "eof", "garbage", "short_eof", "short_timeout", "rbase", "rssl"}
 
 
@@ -146,6 +146,10 @@ class ScriptServer(fakenet.Endpoint):
             if at == "head" or (at == "body" and head_before):
                 st["fault_fired"] = True
                 st["att"]["phase"] = "send-fault"
+                if o["o"] == "epipe_reply":
+                    # the server answered early (e.g. 413) and hung up: the reply is readable although sending fails
+                    sock.rx.append(fakenet.response_bytes(o.get("status", 413), [], b"too large", "cl", False))
+                    sock.rx.append(fakenet.EOF)
                 if o["o"] in ("epipe", "sreset"):
                     # the peer has reset the connection: a later recv on this socket fails the same way
                     sock.rx.append(("exc", ConnectionResetError(errno.ECONNRESET, "Connection reset by peer")))
@@ -174,7 +178,7 @@ class ScriptServer(fakenet.Endpoint):
 
     def _raise_send(self, o):
         k = o["o"]
-        if k == "epipe":
+        if k in ("epipe", "epipe_reply"):
             raise BrokenPipeError(errno.EPIPE, "Broken pipe")
         if k == "sreset":
             raise ConnectionResetError(errno.ECONNRESET, "Connection reset by peer")
